@@ -50,6 +50,7 @@ type scriptRun struct {
 	pl  *plan
 	t0  time.Time
 	iso []*isoProbe
+	cp  *capProbe // capacity probe (capacity.go), nil unless the script asks for one
 	ctl *control
 	inj *rawInjector // forged-source sender (nil: the script plans no poison)
 	mx  *mixedPlan   // mixed-eligibility bursts (nil: the script plans none)
@@ -90,6 +91,9 @@ func runScript(r *vlib.Run, sp scriptSpec, jm *jitterMon) {
 	nIso := sp.Iso
 	if sp.QueueExpiry > 0 {
 		nIso++ // a black-holed zone of its own for the queue-expiry burst (never opened)
+	}
+	if sp.Capacity > 0 {
+		nIso++ // the capacity probe's pin zone (last)
 	}
 	if tw.ListenV6 && !v6LoopbackUsable() {
 		r.Assume("the IPv6 loopback ::1 cannot be bound here: script " + baseName(sp.Name) + " (IPv6 listener) is skipped")
@@ -175,9 +179,21 @@ func runScript(r *vlib.Run, sp scriptSpec, jm *jitterMon) {
 		}
 	}
 
+	if sp.Capacity > 0 {
+		s.cp = newCapProbe(s, e.t.iso[len(e.t.iso)-1], sp.Capacity)
+	}
+
 	s.t0 = time.Now()
 	ctl.start()
 	var isoWG sync.WaitGroup
+	if s.cp != nil {
+		isoWG.Add(1)
+		go func() {
+			defer isoWG.Done()
+			time.Sleep(500 * time.Millisecond)
+			s.cp.run()
+		}()
+	}
 	for i, p := range s.iso {
 		isoWG.Add(1)
 		go func(i int, p *isoProbe) {
@@ -190,6 +206,11 @@ func runScript(r *vlib.Run, sp scriptSpec, jm *jitterMon) {
 	isoWG.Wait()
 	for _, p := range s.iso {
 		if t := p.lastSend(); t.After(lastSend) {
+			lastSend = t
+		}
+	}
+	if s.cp != nil {
+		if t := s.cp.lastSend(); t.After(lastSend) {
 			lastSend = t
 		}
 	}
@@ -765,6 +786,9 @@ func runScript(r *vlib.Run, sp scriptSpec, jm *jitterMon) {
 	for _, p := range s.iso {
 		p.judge()
 	}
+	if s.cp != nil {
+		s.cp.judge()
+	}
 
 	// ---- what the upstream side actually did to the resolver (evidence that
 	// the fault scripts were exercised, incl. the TC → TCP fallback)
@@ -957,6 +981,9 @@ func (s *scriptRun) allQueries() []*qrec {
 	}
 	for _, p := range s.iso {
 		out = append(out, p.queries()...)
+	}
+	if s.cp != nil {
+		out = append(out, s.cp.queries()...)
 	}
 	return out
 }
